@@ -1293,10 +1293,57 @@ package raft
 //@   ensures #kept r.trk.MaxInflight == old(r.trk.MaxInflight) && r.trk.MaxInflightBytes == old(r.trk.MaxInflightBytes) && r.raftLog == old(r.raftLog)
 //@        && r.Term == old(r.Term) && r.id == old(r.id) && log_last(r.raftLog) == old(log_last(r.raftLog)) && r.msgsAfterAppend == old(r.msgsAfterAppend)
 //@   ensures #cursors-kept [C08] r.raftLog.applied == old(r.raftLog.applied) && r.raftLog.applying == old(r.raftLog.applying)
+//@   ensures #membership-untouched [C13] allocframe("M$map[uint64]struct{}", "M$map[uint64]*tracker.Progress")
+//@        && (forall id uint64 :: {trk[id]} has(trk, id) ==> trk[id].IsLearner == old(trk[id].IsLearner))
 //@   ensures #result-fresh [C13] result != nil && fresh(result)
 //@   ensures #result-voters [C13] ids_of(result.Voters, cfg.Voters[0])
 //@   ensures #result-outgoing [C13] ids_of(result.VotersOutgoing, cfg.Voters[1])
 //@   ensures #result-learners [C13] ids_of(result.Learners, cfg.Learners) && ids_of(result.LearnersNext, cfg.LearnersNext)
+//@   ensures #wf wf_raft(r) && hs_monotone(r)
+
+//@ -- ------------------------------------------------------------------------------------------
+//@ -- applyConfChange: the configuration operation selected by the change's shape is run on the current tracker and its result installed.
+//@ -- E-app-conf: the application applies only changes the configuration accepts (a rejected change panics by design: "TODO return the error");
+//@ -- stated with env-assume at the only place that can judge it.
+//@ func raftpb.ConfChangeV2.LeaveJoint [C13]
+//@   pure
+//@   requires c != nil
+//@   ensures #def [C13] result <==> (c.GetTransition() == 0 && len(c.Changes) == 0)
+//@ func raftpb.ConfChangeV2.EnterJoint [C13 C14]
+//@   pure
+//@   requires c != nil
+//@   requires #known-transition [C14] 0 <= c.GetTransition() && c.GetTransition() <= 2
+//@   ensures #def [C13] result1 <==> (c.GetTransition() != 0 || len(c.Changes) > 1)
+//@   ensures #auto-leave [C13] (result1 ==> (result0 <==> c.GetTransition() != 2)) && (!result1 ==> !result0)
+//@ func raft.raft.applyConfChange$1
+//@   inline
+//@ pred tracker_valid(r *raft) := r.trk.Voters[0] != nil
+//@     && (forall id uint64 :: has(r.trk.Progress, id) ==> has(r.trk.Voters[0], id) || has(r.trk.Voters[1], id) || has(r.trk.Learners, id) || has(r.trk.LearnersNext, id))
+//@ func raft.raft.applyConfChange [C10 C13 C14 C16]
+//@   frame raftpb.Message:
+//@   frame elems *raftpb.Message: r.msgs, r.msgsAfterAppend
+//@   requires wf_raft(r) && cc != nil
+//@   requires #a-arith r.trk.MaxInflight >= 1
+//@   requires #known-transition [C14] 0 <= cc.GetTransition() && cc.GetTransition() <= 2
+//@   requires #tracker-valid [C14] tracker_valid(r)
+//@   requires #leave-has-voter [C14] cc.GetTransition() == 0 && len(cc.Changes) == 0 ==> len(r.trk.Voters[0]) > 0
+//@   requires #leader-inv [C14] r.state == StateLeader ==> wf_leader(r)
+//@   reveal wf_trk, trk_distinct, wf_raftLog
+//@   after raft.raft.applyConfChange$1 env-assume #E-app-conf [C14] result2 == nil
+//@   after raft.raft.applyConfChange$1 assert #result-nonnil result1 != nil && progress_values_nonnil(result1)
+//@   after raft.raft.applyConfChange$1 assert #result-records-wf forall id uint64 :: has(result1, id) ==> wf_progress(result1[id])
+//@   after raft.raft.applyConfChange$1 assert #result-distinct records_distinct(result1)
+//@   after raft.raft.applyConfChange$1 assert #result-in-log r.state == StateLeader ==> (forall id uint64 :: has(result1, id) ==> progress_in_log(r, result1[id]))
+//@   ensures #reads-kept [C11] old(reads_wf(r)) ==> reads_wf(r)
+//@   ensures #non-leader-rest old(r.state) != StateLeader ==> raft_kept_but_isLearner(r) && r.msgs == old(r.msgs) && r.msgsAfterAppend == old(r.msgsAfterAppend)
+//@        && r.raftLog.committed == old(r.raftLog.committed) && log_last(r.raftLog) == old(log_last(r.raftLog))
+//@   ensures #kept r.trk.MaxInflight == old(r.trk.MaxInflight) && r.trk.MaxInflightBytes == old(r.trk.MaxInflightBytes) && r.raftLog == old(r.raftLog)
+//@        && r.Term == old(r.Term) && r.id == old(r.id) && log_last(r.raftLog) == old(log_last(r.raftLog)) && r.msgsAfterAppend == old(r.msgsAfterAppend)
+//@   ensures #cursors-kept [C08] r.raftLog.applied == old(r.raftLog.applied) && r.raftLog.applying == old(r.raftLog.applying)
+//@   -- the installed configuration satisfies the configuration invariants and every progress record is a carried-over or an initial one
+//@   ensures #config-invariants [C13] cfg_inv(r.trk.Config, r.trk.Progress) && trk_only_members(r.trk.Config, r.trk.Progress) && r.trk.Voters[0] != nil && len(r.trk.Voters[0]) > 0
+//@   ensures #tracker-valid [C13] tracker_valid(r)
+//@   ensures #result [C13] result != nil && fresh(result)
 //@   ensures #wf wf_raft(r) && hs_monotone(r)
 
 //@ func raftpb.EnsureConfState
